@@ -10,7 +10,7 @@
 //
 // A case is an event list interpreted both here and by the Coq model
 // (Arc.Recovery.Model.run_events):
-//   start{hold,replicate}  new process on the same WAL / storage directories: wal.NewWriter,
+//   start{hold,replicate,rotate}  new process on the same WAL / storage directories: wal.NewWriter,
 //                          ingest.NewArrowBuffer, SetWAL, handlers; NO recovery yet
 //   recover{crash_at_remove} the startup-recovery statements of main() (copied verbatim from the
 //                          current cmd/arc/main.go into verifStartupRecovery by tools/props/C05.py);
@@ -66,6 +66,7 @@ type vEvent struct {
 	Op            string            `json:"op"`
 	Hold          bool              `json:"hold,omitempty"`
 	Replicate     bool              `json:"replicate,omitempty"`
+	Rotate        bool              `json:"rotate,omitempty"` // MaxSizeBytes = 1: the writer rotates after every entry
 	BatchSize     int               `json:"batch_size,omitempty"`
 	URL           string            `json:"url,omitempty"`
 	Headers       map[string]string `json:"headers,omitempty"`
@@ -183,8 +184,12 @@ func vStart(t *testing.T, walDir, storeDir string, ev *vEvent, rep *vReplica) *v
 		n.open = true
 	}
 	before, _ := filepath.Glob(filepath.Join(walDir, "*.wal"))
+	maxSize := int64(n.cfg.WAL.MaxSizeMB) * 1024 * 1024
+	if ev.Rotate {
+		maxSize = 1 // size-triggered rotation after every entry
+	}
 	w, err := wal.NewWriter(&wal.WriterConfig{WALDir: n.cfg.WAL.Directory, SyncMode: wal.SyncMode(n.cfg.WAL.SyncMode),
-		MaxSizeBytes: int64(n.cfg.WAL.MaxSizeMB) * 1024 * 1024, MaxAge: time.Duration(n.cfg.WAL.MaxAgeSeconds) * time.Second,
+		MaxSizeBytes: maxSize, MaxAge: time.Duration(n.cfg.WAL.MaxAgeSeconds) * time.Second,
 		BufferSize: n.cfg.WAL.BufferSize, Logger: zerolog.Nop()})
 	wal.VerifGate = nil
 	if err != nil {
